@@ -265,7 +265,8 @@ public:
         J.attribute("k", k);
         J.attribute("id", (int64_t)idFor(S));
         J.attribute("l", (int64_t)lineOf(S->getBeginLoc()));
-        if (S->getBeginLoc().isMacroID()) {
+        if (S->getBeginLoc().isMacroID() && S->getEndLoc().isMacroID() &&
+            SM.getExpansionLoc(S->getBeginLoc()) == SM.getExpansionLoc(S->getEndLoc())) {
             std::string m = macroName(S->getBeginLoc());
             if (!m.empty()) J.attribute("macro", m);
         }
